@@ -55,7 +55,7 @@ else:
     rc, o = sh(f"git apply {patch}", cwd=target)
     assert rc == 0, o
 try:
-    env = dict(os.environ, SA_REPO=target)
+    env = dict(os.environ, SA_REPO=target, SA_NO_EVIDENCE="1")
     for p in props:
         rc, o = sh(f"./check {p} {tier}", cwd="/verif", env=env)
         if rc != 0:
@@ -66,7 +66,6 @@ finally:
         sh("git -C /repo checkout -- .")
     else:
         sh(f"git -C /repo worktree remove --force {target}")
-    sh("git -C /verif checkout -- evidence")
 out["fired"] = fired
 json.dump(out, sys.stdout, indent=1)
 print()
